@@ -23,8 +23,16 @@ RULE = ("tie: every filesystem event (sys.addaudithook: open with write flags, r
 TRUSTED_BASE = [
     "Coq 8.16.1 kernel; theorems closed under the global context",
     "translator gen/callgraph.py + gen/gen_effects.py: the call graph and effect sets must over-approximate the code (checked "
-    "dynamically: audit-hook traces must lie within the predicted effect kinds)",
-    "effects of the standard library beyond the audited primitives; races with other processes are outside the quantifier",
+    "dynamically: audit-hook traces must lie within the predicted effect kinds).  External names are FAIL CLOSED: a call or mention of "
+    "anything outside the package is an effect (tables of file-creating externals: logging.FileHandler, logging.handlers.*, "
+    "basicConfig(filename=), io/codecs/gzip open with a writing mode, os.open without read-only flags, sqlite3, shelve, tempfile, "
+    "pathlib write methods ...), or is in the explicit allow-list callgraph.EXT_RULES / METHOD_PURE of effect-free names, or makes the "
+    "function Unknown.  The allow-list itself is trusted.  Roots of a command: the function its sub-parser names in cli.py, "
+    "cli.execute, cli.main and the import-time code (module level, class bodies, decorators, defaults) of every module",
+    "Model/Effects.create_fs (probe, then ONE truncating write of the output) is tied to torrent.MetaFile.write syntactically: "
+    "any other shape appends PUnknown to probe_ops and the instance fails",
+    "effects of the standard library beyond the audited primitives; races with other processes are outside the quantifier; "
+    "Windows-only branches (platform.system() == \"Windows\") are not analysed",
 ]
 ASSUMPTIONS = ["`within`: each event of a real execution is performed by a reachable function that declares that kind (validated by traces)",
                "os.rename(T, N) would silently replace an existing N: the guard in commands.rename is what prevents it (modelled)"]
